@@ -2,6 +2,7 @@
 use mc_core::Ctx;
 
 mod c41;
+mod plan;
 mod rat;
 mod c42;
 
